@@ -154,11 +154,16 @@ CHECKS = {
              "returns false only after close() or its timeout; a quiescence point is accepted only if no sender/receiver is blocked while a "
              "partner, free slot or item exists. The tie to the code: generated programs run on the real channel<int> on a virtual clock, every "
              "call/return with its value fed to the automaton; an independent multiset/order oracle supplies failing programs. Two genuine "
-             "defects of the unbuffered channel are recorded as known findings (F2, F14) with a Lean witness theorem for F2",
-        note="trusted: Lean kernel + 3 standard axioms; single vCPU only: operations take effect atomically right before they return, which "
-             "is what makes the automaton a sound oracle; the buffered channel's cross-vCPU lost wake-up (waiter count registered after the "
-             "failed push, design note F3) needs the multi-vCPU harness and is NOT covered; the lock-free ring under the buffered channel is "
-             "C07's subject; tags handed to send are distinct; select() is not covered",
+             "defects of the unbuffered channel are recorded as known findings (F2, F14) with a Lean witness theorem for F2. Across vCPUs: buffered "
+             "channels with 1..3 senders and 1..2 receivers, each on its own vCPU with infinite timeouts, are run for 40 000..150 000 elements; "
+             "what the receivers got must be accepted by a Lean acceptor for which it is proved that no element is received twice and, at the "
+             "end, as many distinct elements were received as sends reported true; a run in which nobody makes progress is a stuck waiter "
+             "(finding F3: waiter registered after the failed push/pop - shown by this check and repaired)",
+        note="trusted: Lean kernel + 3 standard axioms; the specification automaton is sound on ONE vCPU (operations take effect atomically "
+             "right before they return); across vCPUs only the buffered channel is exercised, as real races on real time validated by the "
+             "weaker receiver-side acceptor (PARTIAL: a violation needing a rare interleaving is found only with some probability; F3 stalled "
+             "every run within 10^5 elements); the unbuffered channel and timeouts/close mid-stream across vCPUs are not exercised; the "
+             "lock-free ring under the buffered channel is C07's subject; tags handed to send are distinct; select() is not covered",
         technique="Lean 4 invariants over a specification automaton (refinement at API level) + deterministic simulation of the real runtime",
         design="§5 C09"),
     "C11": dict(
